@@ -43,6 +43,16 @@ def gen(ref, tier, extra_names):
         universe.NAMES[:] = saved
 
 
+_LAYOUT = {}
+
+
+def layout_signature(pr):
+    if pr.name not in _LAYOUT:
+        root = pr.root()
+        _LAYOUT[pr.name] = (tuple(sorted((t, v.replace(root, "<root>/")) for t, v in pr.templates.items())), repr(sorted(pr.mapping.items(), key=str)))
+    return _LAYOUT[pr.name]
+
+
 def plan(tier, seed):
     parts = 8
     shards = []
@@ -95,8 +105,14 @@ def check_sid(ref, prefs, Sid, typ, s, rec, table):
         rels[cname or "default"] = rel
         table.append((cname or "default", rel, x.uri))
     named = {k: v for k, v in rels.items() if k != "default"}
-    if len(set(named.values())) > 1:
-        out.append(dict(signature="configurations-differ-by-more-than-root", observed=named, expected="equal relative paths"))
+    # "differ only by the configured root": for configurations that share one layout (templates and value mapping equal
+    # modulo the root, as local / server of the demo do); a configuration with its own folder vocabulary is another layout
+    groups = {}
+    for k, v in named.items():
+        groups.setdefault(layout_signature(prefs[k]), {})[k] = v
+    for g in groups.values():
+        if len(set(g.values())) > 1:
+            out.append(dict(signature="configurations-differ-by-more-than-root", observed=g, expected="equal relative paths"))
     return out, ("with-path" if has_any else "no-path-type")
 
 
